@@ -137,6 +137,24 @@ def build(mg, spec):
     return geo
 
 
+def apply_ops(mg, geo, ops):
+    """Apply a list of in-place transformations to a live geometry object with the
+    REAL methods of module mg: ('rotate', angle[, centre]) / ('translate', [dx, dy, dz])."""
+    for op in ops:
+        if op[0] == 'rotate':
+            geo.rotate(op[1], centre=list(op[2]) if len(op) > 2 and op[2] is not None else None)
+        elif op[0] == 'translate':
+            geo.translate(mg.np.array([float(v) for v in op[1]]))
+        else:
+            raise KeyError(op[0])
+    return geo
+
+
+def spec_after(mg, spec, ops):
+    """spec of the geometry obtained from `spec` by the ops (concrete; fresh object, never queried)."""
+    return _dump(apply_ops(mg, build(mg, spec), ops))
+
+
 # ---------------------------------------------------------------------------
 # independent concrete containment oracle (exact rationals) for the replay
 
